@@ -138,7 +138,29 @@ def run(tier, seed, lean):
         out['broken'].append({'key': f'{r["id"]}|tagging', 'grammar': r['text'],
                               'what': 'a table of the real generator is not tagged (prec, assoc) as the hypothesis of C02_tree_well_shaped_and_yield requires: '
                                       + r['tagcheck'][:80]})
+    # operators of a postfix row and of an infix row that can be read at the same place: the statement lets the longest
+    # match / the longest expression win, the generated loop reads postfix operators first (recorded finding)
+    import realrun
+    for text, cases in POSTFIX_VS_INFIX:
+        mod, _ = realrun.compile_grammar(text)
+        for inp, want in cases:
+            got = realrun.run_real_api(mod.parse, inp, 0, True)[0]
+            out['coverage']['evaluations'] += 1
+            if tuple(got) != tuple(want):
+                out['violations'].append({'key': f'postfix-vs-infix|{text}|{inp}', 'sig': 'postfix-vs-infix', 'kind': 'spec', 'grammar': text, 'input': inp,
+                                          'finding_class': 'postfix-before-infix',
+                                          'what': f'on {inp!r} the table {text.splitlines()[0]!r} gives {str(got)[:90]}, the tree the statement describes is {str(want)[:90]}'})
     return out
+
+
+POSTFIX_VS_INFIX = [
+    ('start = /[0-9]/ between { postfix: "!"; left: "*"; infix: "!=", "==" }\n',
+     [('1!=2', ('V', '(o Infix (left (s 49)) (operator (s 33 61)) (right (s 50)))')), ('1!', ('V', '(o Postfix (left (s 49)) (operator (s 33)))')),
+      ('1!*2', ('V', '(o Infix (left (o Postfix (left (s 49)) (operator (s 33)))) (operator (s 42)) (right (s 50)))'))]),
+    ('start = /[0-9]/ between { postfix: "+"; left: "+" }\n',
+     [('1+2', ('V', '(o Infix (left (s 49)) (operator (s 43)) (right (s 50)))')), ('1+', ('V', '(o Postfix (left (s 49)) (operator (s 43)))')),
+      ('1++2', ('V', '(o Infix (left (o Postfix (left (s 49)) (operator (s 43)))) (operator (s 43)) (right (s 50)))'))]),
+]
 
 
 replay = c01.replay
